@@ -33,6 +33,7 @@ class MetaModel:
         # C13: "the documented CompletionItemKind customisation"
         self.open_enum_extra = {"CompletionItemKind"} if python_customizations else set()
         self._flat: Dict[str, List[Dict]] = {}
+        self.null_optional_ok = False
 
     @classmethod
     def load(cls, path: Optional[str] = None, **kw) -> "MetaModel":
@@ -219,11 +220,8 @@ class MetaModel:
         for p in props:
             if p["name"] in j:
                 v = j[p["name"]]
-                if v is None and p.get("optional") and not self.null_admitting(p["type"]):
-                    # explicit null at an optional property: indistinguishable from absent (DESIGN 3.1)
-                    if self.valid(p["type"], v, strict, open_empty):
-                        continue
-                    continue
+                if v is None and self.null_optional_ok and p.get("optional") and not self.null_admitting(p["type"]):
+                    continue  # reading used for C17 only (the testdata plugin's convention)
                 if not self.valid(p["type"], v, strict, open_empty):
                     return False
             elif not p.get("optional"):
